@@ -352,6 +352,58 @@ fn judge(c: &Case, o: &Obs, vios: &mut Vec<Violation>) -> (u64, String) {
     (judgements, outcome)
 }
 
+/// One crate, two source files, each importing a type of the same name from a different crate: the crate's output file
+/// imports the name from both modules (TypeScript, Kotlin), whatever other names are imported next to it.
+fn same_name_from_two_crates_family(rep: &mut Report) {
+    let mut jobs = Vec::new();
+    for lang in [Lang::TypeScript, Lang::Kotlin] {
+        for second_form in ["use", "glob", "qualified-path"] {
+            for extra_names in [false, true] {
+                jobs.push((lang, second_form, extra_names));
+            }
+        }
+    }
+    let results = par_map(&jobs, report::threads(), |(lang, second_form, extra_names)| {
+        let sc = Scratch::new("c14h");
+        sc.write("ws/alpha/src/lib.rs", b"#[typeshare]\npub struct Label { pub a: u32 }\n#[typeshare]\npub struct OnlyAlpha { pub x: u32 }\n");
+        sc.write("ws/beta/src/lib.rs", b"#[typeshare]\npub struct Label { pub b: u32 }\n#[typeshare]\npub struct OnlyBeta { pub y: u32 }\n");
+        let extra_a = if *extra_names { "use alpha::OnlyAlpha;\n" } else { "" };
+        let extra_af = if *extra_names { ", pub o: OnlyAlpha" } else { "" };
+        sc.write("ws/gamma/src/one.rs", format!("use alpha::Label;\n{extra_a}#[typeshare]\npub struct FromAlpha {{ pub l: Label{extra_af} }}\n").as_bytes());
+        let (use_b, ty_b) = match *second_form {
+            "use" => ("use beta::Label;\n", "Label"),
+            "glob" => ("use beta::*;\n", "Label"),
+            _ => ("", "beta::Label"),
+        };
+        let extra_bf = if *extra_names && *second_form != "qualified-path" { ", pub o: OnlyBeta" } else { "" };
+        let extra_b = if *extra_names && *second_form == "use" { "use beta::OnlyBeta;\n" } else { "" };
+        sc.write("ws/gamma/src/two.rs", format!("{use_b}{extra_b}#[typeshare]\npub struct FromBeta {{ pub l: Vec<{ty_b}>{extra_bf} }}\n").as_bytes());
+        sc.mkdir("out");
+        let mut args = cli::lang_args(*lang);
+        args.extend([s("-d"), sc.path("out").to_string_lossy().into_owned(), sc.path("ws").to_string_lossy().into_owned()]);
+        let r = run_cli(&args, &sc.root, &[], cli::TIMEOUT);
+        let gamma = std::fs::read_to_string(sc.path(&format!("out/gamma.{}", lang.ext()))).unwrap_or_default();
+        (r.class(), r.stderr.chars().take(400).collect::<String>(), gamma, args)
+    });
+    let mut judged = 0u64;
+    for ((lang, second_form, extra_names), (class, stderr, gamma, argv)) in jobs.iter().zip(results.iter()) {
+        let imports: Vec<&str> = gamma.lines().filter(|l| l.trim_start().starts_with("import ") && !l.contains("kotlinx")).collect();
+        let from = |module: &str| imports.iter().any(|l| l.split(|c: char| !c.is_alphanumeric() && c != '_').any(|t| t == "Label") && l.split(|c: char| !c.is_alphanumeric() && c != '_').any(|t| t == module));
+        for module in ["alpha", "beta"] {
+            judged += 1;
+            if *class != "ok" || !from(module) {
+                rep.vios.add(Violation {
+                    sig: format!("C14|{}|same-name-from-two-crates|import-missing:from={module}|second-reference={second_form}|other-names={}", lang.name(), *extra_names as u8),
+                    detail: json!({"argv": argv, "exit": class, "stderr": stderr, "gamma_output": gamma, "import_lines": imports, "observation": format!("crate gamma uses alpha::Label in one file and beta::Label in another: its output must import Label from {module}")}),
+                });
+            }
+        }
+    }
+    rep.cov("same_name_from_two_crates", json!({"process_runs": jobs.len(), "second_reference_forms": ["use", "glob", "qualified-path"], "other_names_imported_next_to_it": [false, true], "languages": ["typescript", "kotlin"], "judgements": judged}));
+    rep.cov_add("evaluations", judged);
+    rep.cov_add("traces_validated_against_impl", jobs.len() as u64);
+}
+
 /// Topologies: k crates `k1..kk`, crate i holds `T<i>` (and a second file with `Extra<i>` at depth), and for every
 /// pair i < j an edge "T<i> refers to T<j>" is present or absent — every subset of edges, i.e. every reference DAG
 /// compatible with the crate order (chains, fans, diamonds, isolated crates). Generic oracle: file set, each
@@ -659,6 +711,7 @@ pub fn run(args: &[String]) -> i32 {
     rep.cov("distinct_outcomes", json!(outcomes.len()));
     rep.cov("bounds", json!({"reference_forms": FORMS, "target_renamed": [false, true], "target_kinds": TARGET_KINDS, "target_type_mapped": [false, true], "same_named_type_in_third_crate": ["no", "yes", "yes, serde-renamed (plus a fourth crate with another renamed homonym)"], "positions": POSITIONS, "file_depth": ["src/lib.rs", "src/a/b.rs (and dashed crate name)"], "languages": 6, "crates": "2-3 (reference forms), 1-5 (topologies)"}));
     topology_family(&mut rep);
+    same_name_from_two_crates_family(&mut rep);
     rep.cov("exhaustive", json!(true));
     rep.cov("rule", json!("full product of reference form × serde(rename) on the target × type mapping of the target × same-named type in a third crate × reference position × file depth/dashed crate name × language, each workspace generated with -d and with -o by the real binary: file set and names per crate, each definition in its crate's file, definitions equal to single-file mode, and (TypeScript, Kotlin) every cross-file reference imported from the defining module and no import of a name its module does not define. non-trivial = the reference crosses a crate boundary."));
     rep.assume("over-import by `use c::*` (names defined in c but unused) is allowed by the property");
